@@ -2,7 +2,7 @@
 //!
 //! An *action interpreter + logger*: it turns abstract transaction descriptors into concrete
 //! fuel transactions, lets the real `fuel_core_upgradable_executor::Executor` (native) produce /
-//! validate blocks over a real in-memory on-chain `Database` and a scripted relayer view, commits
+//! validate blocks over a plain in-memory key-value store (db.rs) and a scripted relayer view, commits
 //! them the way the importer does, and logs one ndjson event per step of Exec.tla.  It asserts
 //! nothing about the properties; TLC judges the trace.
 //!
@@ -65,10 +65,12 @@ fn run_walks(args: &Args) {
 fn random(args: &Args) {
     let n = args.num("walks", 20);
     let blocks = args.num("blocks", 6);
+    // --small-size 1: every world gets a block size limit that a source ignoring its `size` argument can exceed
+    let small = args.num("small-size", 0) == 1;
     let mut t = Trace::create(args.req("out"));
     for id in 0..n {
         let mut rng = Rng::new(env_seed().wrapping_mul(1_000_003) ^ (id.wrapping_mul(7919) + 17));
-        let cfg = random_cfg(&mut rng);
+        let cfg = random_cfg(&mut rng, small);
         t.reset(id as i64, json!({}));
         let mut world = World::new(cfg);
         world.log_setup(&mut t);
